@@ -65,7 +65,9 @@ def real_pyeq(req):
     x, y = make_obj(a), make_obj(b)
     try:
         with warnings.catch_warnings():
-            warnings.simplefilter('ignore')
+            # "returns a bool without raising" also when warnings are errors (python -W error, pytest filterwarnings=error):
+            # e.g. using NotImplemented in a boolean context is a DeprecationWarning
+            warnings.simplefilter('error')
             if op == 'pyeq':
                 r = (x == y)
             elif op == 'pyne':
@@ -1011,6 +1013,7 @@ def rt_alias(req):
             r = None
         sp = signatures.sort_params(sigs[0], sources=True)
         ap = signatures.apply_params(sigs[0], *sp)
+        ap0 = signatures.apply_params(sigs[0], *signatures.sort_params(sigs[0]))     # the form the documentation shows (no sources)
     problems = []
     after = [core.canon_sig(s) for s in sigs]
     if before != after:
@@ -1018,7 +1021,15 @@ def rt_alias(req):
     params_after = [[(id(p), core.canon_param(p), id(p.sources)) for p in s.parameters.values()] for s in sigs]
     if params_before != params_after:
         problems.append('input-mutated: %s changed an input parameter object' % E.line(inner))
-    for res, what in ((r, op), (ap, 'apply_params'), (sp, 'sort_params')):
+    for res, what in ((r, op), (ap, 'apply_params'), (ap0, 'apply_params(s, *sort_params(s))')):
+        if res is None:
+            continue
+        for q in res.parameters.values():
+            if id(getattr(q, 'sources', None)) in ids:
+                problems.append('shared-param-list: parameter %r of the result of %s holds (as its .sources) a list of an input\'s sources map (%s)' % (
+                    q.name, what, E.line(inner)))
+                break
+    for res, what in ((r, op), (ap, 'apply_params'), (sp, 'sort_params'), (ap0, 'apply_params(s, *sort_params(s))')):
         if res is None:
             continue
         src = res.sources
@@ -1028,6 +1039,45 @@ def rt_alias(req):
             if id(v) in ids:
                 problems.append('shared-list: the result of %s shares sources[%r] with an input (%s)' % (what, k, E.line(inner)))
                 break
+    # the same operation on signatures RETRIEVED from real functions (signatures.signature builds the parameter objects and
+    # the map together): no parameter of the result may hold a list that sits in an input's sources map
+    try:
+        import types
+        with warnings.catch_warnings():
+            warnings.simplefilter('ignore')
+            fsigs = []
+            for d in ds:
+                f0 = core.make_def(d['params'])
+                f = types.FunctionType(f0.__code__, f0.__globals__, 'f%d' % len(fsigs), f0.__defaults__, f0.__closure__)
+                f.__kwdefaults__ = f0.__kwdefaults__
+                fsigs.append(signatures.signature(f))
+            fids = set()
+            for sg in fsigs:
+                for v in sg.sources.values():
+                    fids.add(id(v))
+            try:
+                if op == 'merge':
+                    r2 = signatures.merge(*fsigs)
+                elif op == 'embed':
+                    r2 = signatures.embed(*fsigs, use_varargs=bool(inner[1]), use_varkwargs=bool(inner[2]))
+                elif op == 'mask':
+                    fl = inner[3]
+                    r2 = signatures.mask(fsigs[0], inner[1], *inner[2], hide_args=fl[0], hide_kwargs=fl[1],
+                                         hide_varargs=fl[2], hide_varkwargs=fl[3])
+                else:
+                    fl = inner[3]
+                    r2 = signatures.forwards(fsigs[0], fsigs[1], inner[1], *inner[2], hide_args=fl[0], hide_kwargs=fl[1],
+                                             use_varargs=fl[2], use_varkwargs=fl[3], partial=fl[4])
+            except ValueError:
+                r2 = None
+        if r2 is not None:
+            for q in r2.parameters.values():
+                if id(getattr(q, 'sources', None)) in fids:
+                    problems.append('shared-param-list: parameter %r of the result of %s on signatures retrieved from functions holds (as its '
+                                    '.sources) the very list of an input\'s sources map: appending to it changes the input (%s)' % (q.name, op, E.line(inner)))
+                    break
+    except SyntaxError:
+        pass
     return ('ok', tuple(problems[:3]))
 
 
